@@ -152,7 +152,7 @@ fn recovery(spec: &Spec, pa: &[f64], pb: &[f64], tail: &[f64], floor: f64, tol: 
         if t == t_h {
             rec.decay[2] = d;
         }
-        if t >= t_h && t <= 2 * t_h {
+        if t >= t_h {
             scale = scale.max(va.abs()).max(vb.abs());
             diffs.push((t, d));
         }
@@ -247,24 +247,32 @@ impl Prop for C09 {
         let s_scale = *r.pick(&[1e-3, 1e-2, 0.1, 1.0, 1.0, 1.0, 10.0, 100.0, 1e3]);
         if bounded {
             let len = match tier {
-                Tier::Quick => 100_000,
-                Tier::Thorough => {
-                    if r.chance(0.05) {
-                        1_000_000
+                Tier::Quick => {
+                    if r.chance(0.03) {
+                        1_100_000
                     } else {
-                        200_000
+                        140_000
+                    }
+                }
+                Tier::Thorough => {
+                    if r.chance(0.08) {
+                        1_100_000
+                    } else {
+                        300_000
                     }
                 }
             };
             let shape = r.below(SHAPES.len()) as u8;
-            sc.feeds.push(Feed::Gen { seed: r.next_u64(), shape, len, scale: s_scale / 4.25, positive: r.chance(0.5) });
+            sc.feeds.push(Feed::Gen { seed: r.next_u64(), shape, len, scale: s_scale / 4.25, positive: r.chance(0.5), quant: 0.0 });
             sc.set_int("s_scale_bits", s_scale.to_bits() as i64);
         } else {
             let t_h = horizon(&tree).unwrap();
             let any_ratio = tree.any(&|x| is_ratio(x.k));
             // common tail: persistently exciting within [S/2, 2S] (constant tails only for all-linear chains)
             let tail_shape: u8 = if !any_ratio && r.chance(0.15) { 4 } else { *r.pick(&[12u8, 1, 9, 12]) };
-            let u = gen_shape(r, tail_shape, 2 * t_h + 2, 1.0, false);
+            // "and stays there": 1.5% of the tails run on for thousands to a million deliveries after 2T
+            let extra_tail = if r.chance(0.015) { crate::feed::long_len(r) } else { 0 };
+            let u = gen_shape(r, tail_shape, 2 * t_h + 2 + extra_tail, 1.0, false);
             let noise = if tail_shape == 9 { 0.05 } else { 0.0 };
             let tail: Vec<f64> = u.iter().map(|x| s_scale * (1.25 + 0.375 * x + noise * (r.unit() - 0.5)).clamp(0.5, 2.0)).collect();
             // prefixes: one base stream, an independent fault realisation for each replica
@@ -503,7 +511,7 @@ impl Prop for C09 {
     }
 
     fn rule(&self) -> String {
-        "Views cycle systematically through Ema (default and sampled alpha), LaguerreFilter (gamma in {0,0.1..0.9,0.95}), SuperSmoother, RoofingFilter(N,M<=16), CyberCycle, TrendFlex, ReFlex, LaguerreRSI and EhlersFisherTransform over {Ema, Sma, Alma, SuperSmoother, LaguerreFilter}; 30% of runs are two-level chains of these, a quarter of which have a third level. N: 50% from the view's minimum to 9, 37% 10..64, 9% 128, 4% 1000. Mode 'recovery' (7 of 8 runs): two replicas of the same tree; one base stream of 0-400 values gets an independent fault realisation per replica (drop, duplicate, reorder, corrupt, spike bursts up to 500 S, up to 300 extra prefix values), then both receive the same persistently exciting tail inside [S/2,2S] (uniform noise, random walk or sinusoid+noise; exactly constant tails only for all-linear chains). Oracle: with T = T(view,N) from the documented pole radius, |out_A-out_B| <= tol*scale at every delivery in [T,2T] (tol 1e-9 linear, 1e-6 ratio-type; scale = max(S or output range, largest |out| in the window)). Mode 'bounded' (1 of 8): one replica, 1e5 (thorough 2e5, 5% 1e6) deliveries of a feed bounded by S in any of the 14 shapes; every output finite and within 1e6*S (linear) or the analytic bound 5 / 1 / ln199 (ratio-type). distinct = distinct (topology, feed lengths); non-trivial = prefixes actually differ and the window was compared, or a bounded run reached 1e5 deliveries."
+        "Views cycle systematically through Ema (default and sampled alpha), LaguerreFilter (gamma in {0,0.1..0.9,0.95}), SuperSmoother, RoofingFilter(N,M<=16), CyberCycle, TrendFlex, ReFlex, LaguerreRSI and EhlersFisherTransform over {Ema, Sma, Alma, SuperSmoother, LaguerreFilter}; 30% of runs are two-level chains of these, a quarter of which have a third level. N: 50% from the view's minimum to 9, 37% 10..64, 9% 128, 4% 1000. Mode 'recovery' (7 of 8 runs): two replicas of the same tree; one base stream of 0-400 values gets an independent fault realisation per replica (drop, duplicate, reorder, corrupt, spike bursts up to 500 S, up to 300 extra prefix values), then both receive the same persistently exciting tail inside [S/2,2S] (uniform noise, random walk or sinusoid+noise; exactly constant tails only for all-linear chains). Oracle: with T = T(view,N) from the documented pole radius, |out_A-out_B| <= tol*scale at every delivery from T to the end of the tail (2T, and in 1.5% of runs thousands to a million deliveries more) (tol 1e-9 linear, 1e-6 ratio-type; scale = max(S or output range, largest |out| in the window)). Mode 'bounded' (1 of 8): one replica, 1.4e5 (3%: 1.1e6; thorough 3e5, 8% 1.1e6) deliveries of a feed bounded by S in any of the 14 shapes; every output finite and within 1e6*S (linear) or the analytic bound 5 / 1 / ln199 (ratio-type). distinct = distinct (topology, feed lengths); non-trivial = prefixes actually differ and the window was compared, or a bounded run reached 1e5 deliveries."
             .into()
     }
     fn assumptions(&self) -> Vec<String> {
